@@ -17,12 +17,12 @@ T = {
          'Full theorems on the model; the derivative recursion dB is additionally proved to be the derivative of the polynomial pieces (Lemmas/Deriv, DerivReal).'),
  'C02': ('Theorems: tensor evaluation = defining sums for pardim 1-3 (index algebra of the array model), rational division with positive denominator, pointwise = grid diagonal, error iff outside a non-periodic direction, periodic wrap, identity map of default control points (linear precision), bounding box. Correspondence over all calling forms.',
          'Scalar/squeeze/__call__ glue is outside the Lean model and covered by the correspondence and oracle only; generic-pardim statement not proved (pardim 1,2,3 separately).'),
- 'C03': ('Theorems: non-rational derivative = contraction with dB rows (= spec sums under C01); rational first order and the curve/surface closed forms of order 2-3 equal the jet of n/W under the Leibniz relations; dispatch soundness; derivative-spline identity incl. periodic; tangent algebra. Source-derived: the dispatch tables of Curve/Surface.derivative are re-extracted from the Python AST every run and 16 obligations re-checked.',
-         'Partial: tensor=False entry formulas for pardim>1 and the step "closed form = derivative of the quotient" keep the Leibniz relations as hypotheses; seven known defect classes of the pinned code are listed findings.'),
- 'C04': ('Theorems: for every valid non-periodic basis and x in [start,stop) the model of insert_knot returns the Boehm matrix: new basis valid, knots = old + x, every spline value and derivative unchanged (both sides); sequences by induction; object level fibre-wise for any pardim; refine values lie inside spans; periodic case: knot-vector half under the guard n >= p+k.',
-         'Partial: geometric half of the periodic case, x = end, and n < p+k are not proved (the last two are listed defects of the code); graded-refinement placement (tan/atan) is oracle-only.'),
- 'C05': ('Theorems: raise_order knot bookkeeping (order, domain, multiplicities, continuity, lower∘raise = id on knots) for clamped bases; geometry under two named hypotheses (degree-elevation inclusion H_incl, Greville collocation invertible H_sw): the reinterpolation returns exactly the elevated coefficients; API contract; explicit branch dead. The Gauss-Jordan model of np.linalg.inv/solve is proved sound and complete (Lemmas/SolveSound).',
-         'Partial by design: H_incl and H_sw are hypotheses (classical theorems not proved here); every generated instance is additionally decided exactly over Q by the model (exact-same). Periodic ghost-knot trimming has correspondence only.'),
+ 'C03': ("Theorems (49 + 16 source-derived): non-rational derivative entries = sums of products of Cox-de Boor derivative values for curves, surfaces and volumes (tensor and pointwise forms, arbitrary parameters via snapping); rational first order and curve/surface closed forms of order 2-3 equal the jet of n/W; over R the model's derivative(d<=3) of a rational curve IS the iterated one-sided derivative of the evaluated map (Mathlib HasDerivWithinAt, no Leibniz hypothesis); dispatch sound for every spelling of d and above; derivative spline evaluates to the derivative at object level. The dispatch tables of Curve/Surface.derivative are re-extracted from the Python AST every run and 16 obligations re-checked.",
+         'Second/third-order rational SURFACE closed forms keep the Leibniz relations as hypotheses (two-variable calculus not formalised); three listed defect classes.'),
+ 'C04': ('Theorems (20 + bridge): for every valid non-periodic basis and x in [start,stop) insert_knot returns the Boehm matrix: basis valid, knots = old + x, every spline value and derivative unchanged (both sides); sequences by induction; objects of any pardim fibre-wise and, through the bridge, Obj.evaluate itself unchanged for curves/surfaces/volumes; refine and geometric_refine values lie inside spans; PERIODIC case proved in full under the guard n >= p+k (knot vector, ghost repair, wrapped sums unchanged, sequences, objects, periodic curve evaluator).',
+         'Partial only where the code is defective (x = end, n < p+k: listed findings); center/edge_refine placement (tan/atan) is oracle-only.'),
+ 'C05': ('Theorems: raise_order knot bookkeeping; FULL geometry theorem for clamped continuous bases in one parametric direction with no analytic hypothesis: degree-elevation inclusion (Lemmas/Elevation) and Schoenberg-Whitney at the Greville points (Lemmas/SchoenbergWhitney, total positivity by knot insertion) are proved, the Gauss-Jordan model of np.linalg.inv/solve is proved sound and complete, so raise_order succeeds and the evaluated map (rational included) is unchanged, lower_order returns the original control points; through the bridge Obj.evaluate unchanged for curves.',
+         'Partial: periodic bases (named hypotheses kept), the pardim 2-3 composition of the simultaneous re-interpolation, order-1 directions (listed findings).'),
  'C06': ('Theorems (30): reversed/reparametrised knot vectors in closed form, domain/periodicity preserved, reverse of curves and objects equals the reflected map (periodic: with the roll by k+1 the code omits - refuted for flip-only by a concrete instance), swap index algebra and evaluation, reparam exact domain and affine invariance, compositions and image invariance by induction over op lists; check_direction table re-extracted from the AST every run.',
          'Object bodies of reverse/swap/reparam are tied by correspondence only; three listed defect classes.'),
  'C07': ('Theorems: every piece cut from the Boehm-refined vector is a valid open basis whose spline equals the original on its sub-interval (values and all derivatives, both sides); pieces tile; periodic split as shifted sequence (under the periodic-insertion hypothesis); append for equal orders; _splitvector arithmetic.',
@@ -31,28 +31,28 @@ T = {
          'Partial: domain end excluded in the shift theorem; k<=1 round trip and lower_periodic assume the insertion step (C04).'),
  'C09': ('Theorems (16): linear maps and translations commute with the evaluated (projective) point for any finite weight family; every model op is affineCp with the stated matrix; weights literally untouched; rotation matrix orthogonal/det 1/Rodrigues +theta, 2-D = 3-D about e_z; mirror involution; embedding changes; operator forms; compositions by induction.',
          'The identification of Obj.evaluate with the weighted sum is C02; three listed defect classes (infix /, 2-D rotate ignores axis sign, numpy left operands).'),
- 'C10': ('Theorems: constructor accepts/rejects exactly as coded and never rejects a Valid basis; per-operation preservation of well-formedness; reachable objects WF by induction over op lists. Correspondence: random op histories on a pool of objects, Lean wfB vs a Python transcription on the real objects.',
-         'Partial for operations whose WF-preservation rests on unproved facts (raise_order weights, periodic insertion on small bases).'),
+ 'C10': ('Theorems (30): constructor accepts/rejects exactly as coded and never rejects a Valid basis (gap to Valid exhibited); well-formedness preserved by clone, reverse, swap, reparam, section, extrude, affine family, set_dimension, force_rational (full) and by insert_knot/refine/split/make_periodic/append under named hypotheses; insertion matrix row-stochastic (weights stay positive); reachable objects well formed by induction over op lists. Correspondence: random op histories on a pool of objects, Lean wfB vs a Python transcription on the real objects.',
+         'raise_order/lower_order/lower_periodic/periodic insertion/make_splines_identical are covered by checked results (wfB) and the correspondence only; four listed defect classes.'),
  'C11': ('Theorems on an explicit heap model (buffers, basis records, objects): separation invariant preserved by every contract-respecting step, isolation of in-place writes, in-place returns receiver, predicted sharing graph empty - for all histories. The operation/contract table (193 entries) is regenerated from the live API every run and totality re-proved; the real sharing graph (numpy.shares_memory), write set and isolation experiment are compared with the model.',
          'Partial: the per-operation contracts are premises validated dynamically, not proved from the Python source. Six listed defect classes.'),
- 'C12': ('Theorems: compatibility (dimension/rationality), knot-merge insertion counts = max multiplicity under a separation hypothesis, geometry preserved as composition of the C06/C08/C05/C04 step theorems, directions touch only their basis.',
-         'Partial exactly to the extent C05 (H_incl/H_sw) and periodic insertion are.'),
- 'C13': ('Theorems: every rational quadratic arc span lies on the circle and runs counter-clockwise, p2C0 circle, p4C1 quartic Bezier identity, ellipse, placement rotation maps e_z to n and e_x to the x-axis, revolve/extrude sections, linear primitives, sphere/torus equations; control nets of all factories compared with the model (trig supplied as exact rational points on the circle).',
-         'Partial: B-spline-to-Bezier identification of the p4C1 spans and "passes through x1" are oracle-only; six listed defect classes.'),
- 'C14': ('Theorems (13): certified solve correct, interpolation rows reproduced for curves, non-square surfaces (both layouts) and volumes, projection/uniqueness for interpolation and least squares, cubic_curve system square for all six boundary types with each type\'s end rows satisfied.',
-         'Under the property\'s own hypothesis that the collocation is solvable; loft/bezier/rebuild by correspondence, manipulate/fit oracle-only; four listed defect classes.'),
- 'C15': ('Theorems (24): clamped-end sections equal the restriction (any pardim, rational too), section table/order/indexing for src <= 3 by decide, Coons patch restricts to its inputs (function and net level, evaluated), all 384 loop arrangements accepted, ruled/extrude sections, six-face function-level identity, const_par_curve under a Boehm chain.',
-         'Partial: six-face net lift and thicken oracle-only; five listed defect classes.'),
- 'C16': ('Theorems: basis-integral antiderivative identity, quadrature exactness for piecewise polynomials under abstract rule hypotheses, node-wise rigid/scale invariances, Frenet algebra, centre equivariance.',
-         'Partial: clauses about quadrature error (invariance for non-polynomial integrands, convergence to analytic values) are not theorems; they are checked by the oracle with a refinement-based error budget.'),
- 'C17': ('Theorems (12): orientation group laws generic in n, enumeration complete (2/8/48), map_array composition, map_section/view_section commute (tables by decide +kernel for n <= 3), compute sound and complete, equivalence, vertex canonicity, single-object catalogue canonicity, twins/handedness policy.',
-         'Partial: the induction over conforming complexes (catalogue canonical for whole models) is not proved; model histories are compared exactly with the real SplineModel. Three listed defect classes.'),
- 'C18': ('Theorems: numbering range and codim-1 identification, counterexample to the full statement (edge/corner contact) on the model replayed on the code, cell enumeration, ifem_format injective, OpenFOAM stable-sort order, single-cell face normals.',
-         'Partial: full numbering statement is false for the algorithm (listed finding).'),
- 'C19': ('Theorems (8): first-index-fastest flatten/unflatten inverse for any shape, G2 write/read round trip on tokens for every well-formed non-periodic object and whole files, foreign records, SPL index algebra, STL facet count and vertices, SVG write/read is one similarity with s > 0.',
-         'Number formatting (%.16g, float32) abstracted to an idempotent rounding applied by the harness; periodic split, primitive records and bezier_representation are oracle-only; listed defect classes.'),
- 'C20': ('Theorems: snap/evaluate/validate/continuity honour the tolerance under a separation hypothesis; VertexDict lookups; state(): a proved decision procedure (restoresB) for the statement language, applied to the program re-translated from state.py every run; write sites of state attributes re-extracted from all sources every run.',
-         'Source-derived obligations currently fail on the pinned tree for two listed defects (no try/finally in state(); g2 writes a setting).'),
+ 'C12': ('Theorems (8): compatibility; knot-merge insertion counts; C12_open_curves: for two clamped curves of DIFFERENT orders make_splines_identical succeeds, both end with identical order and knot vector on [0,1] and both keep their map (no hypotheses on the called methods: C06 reparam, C05 full, C04); insertion geometry for any pardim; directions touch only their basis.',
+         'Partial: surfaces/volumes with different orders (needs the pardim 2-3 composition of C05) and periodic directions (lower_periodic) keep named hypotheses; five listed defect classes.'),
+ 'C13': ('Theorems (15): circle arcs, the p2C0 and p4C1 circles and circle_segment in B-SPLINE form lie on the circle for every parameter (spans identified with Bernstein/Bezier forms), counter-clockwise, placement rotation maps e_z to n and e_x to the x-axis and every evaluated point of a placed circle satisfies |x-c| = r and (x-c).n = 0, three-point arc ends at x2 and passes through x1 (over R), revolve/extrude sections, linear primitives, sphere/torus equations; control nets of all factories (incl. the solid sphere) compared with the model.',
+         "Cobb's cube-sphere faces on the sphere not proved; two listed defect classes."),
+ 'C14': ('Theorems (29): the certified solve IS the Gauss-Jordan model and that model is sound and complete; interpolation in spec terms (splineVal / Obj.evaluate at t_i equals x_i) for curves, non-square surfaces (both layouts) and volumes; with Schoenberg-Whitney: interpolation at the Greville points (and at any nested parameters) of a clamped continuous basis SUCCEEDS and interpolates - no solvability hypothesis; projection for interpolation and least squares (curves, surface grids); cubic_curve square system and end rows for all six boundary types; loft through its sections; bezier; rebuild; factory transposes cancel.',
+         'Solvability stays a hypothesis for periodic bases, cubic_curve systems and least-squares normal matrices; manipulate/fit oracle-only; one listed defect class.'),
+ 'C15': ("Theorems (41 + 1 source-derived): clamped-end sections equal the restriction for the model's section() (any pardim, rational too), section table/order/indexing by decide and re-translated from the Python AST every run, const_par_curve proved in full for non-periodic directions (insertion loop = Boehm refinement, picked row = fibre value) incl. evaluation along the parameter line, Coons patch and the six-face volume restrict to their inputs at function, net and evaluated level, all 384 loop arrangements accepted, ruled/extrude sections.",
+         'Rational Coons needs equal corner weights (listed); thicken oracle-only; five listed defect classes.'),
+ 'C16': ('Theorems (36): BSplineBasis.integrate equals the integral of the B-spline over R for every sub-interval of the domain, from Basis.Valid alone (open and periodic); center is the exact integral mean for curves and surfaces, projective for rational, invariant under knot insertion; quadrature exactness for piecewise polynomials (midpoint, Simpson, 2- and 3-point Gauss rules proved exact), node-wise rigid/scale/reversal invariances, Frenet algebra, curvature/torsion invariances.',
+         'Clauses about quadrature ERROR (invariance for non-polynomial integrands, convergence to analytic values) are not theorems; they are checked by the oracle with a refinement-based error budget.'),
+ 'C17': ('Theorems (16): orientation group laws generic in n, enumeration complete (2/8/48), map_array composition, map_section/view_section tables, compute sound and complete, equivalence (rational, non-rational, mixed); the catalogue invariant is preserved by SplineModel.add and C17_catalogue_canonical / C17_catalogue_counts are PROVED for pardim <= 3: one node per equivalence class of cells for any list of patches, any order, any orientation; higher_nodes = adjacent cells; boundary() = codim-1 cells with one neighbour; lookups of re-oriented copies return the same node; add never raises without twins/handedness policy.',
+         "Tolerant comparison modelled as exact; entity identity is the model's equivalence, which inherits the two listed defect classes of the code (weights)."),
+ 'C18': ("Theorems (9): numbering range/surjectivity/injectivity under the star hypothesis, the full numbering statement REFUTED on the model by a kernel-evaluated witness (edge/corner contact) replayed on the code, cps table, cell enumeration, ifem_format injective, IFEM connection list = interfaces exactly once (from C17's catalogue theorems, no hypotheses), OpenFOAM stable-sort order and boundary blocks, single- and multi-cell face cycles with outward normals, internal/boundary faces once, six faces per cell.",
+         'Partial: the full numbering statement is false for the algorithm (listed finding); assembly of faces() across patches and the plans<->catalogue ownership link are covered by the correspondence only.'),
+ 'C19': ("Theorems (12): first-index-fastest flatten/unflatten inverse for any shape, G2 write/read round trip on tokens for every well-formed non-periodic object and whole files, periodic objects = split at the seam then round trip, foreign records, every analytic primitive record's fields reach the modelled factory in documented order, SPL index algebra, STL facet count/vertices and sampling rule, SVG write/read is one similarity with s > 0 incl. the modelled bezier_representation.",
+         'Number formatting abstracted to an idempotent rounding applied by the harness; bounded_surface and SVG path parsing not modelled; one listed defect class.'),
+ 'C20': ('Theorems (23 + 4 source-derived): snap/evaluate/validate/continuity honour the tolerance under a separation hypothesis, lifted to Obj.evaluate and Obj.derivative for any pardim (fuzz inside or just outside an end never raises or changes the result), Greville points, VertexDict lookups, allclose/Orientation tolerance; state(): a proved decision procedure applied to the program re-translated from state.py every run (now discharged: try/finally), write sites of state attributes re-extracted from all sources every run (now only state.py); a settings monitor around every implementation call of every property.',
+         'Rational closed-form derivative overrides are covered row-wise only.'),
 }
 
 
